@@ -1,6 +1,7 @@
 pub mod c01;
 pub mod c02;
 pub mod c03;
+pub mod c04;
 pub mod c05;
 pub mod c11;
 pub mod c18;
@@ -9,5 +10,5 @@ pub mod exprspace;
 use crate::engine::Prop;
 
 pub fn all() -> Vec<Prop> {
-    vec![c01::PROP, c02::PROP, c03::PROP, c05::PROP, c11::PROP, c18::PROP]
+    vec![c01::PROP, c02::PROP, c03::PROP, c04::PROP, c05::PROP, c11::PROP, c18::PROP]
 }
